@@ -33,6 +33,8 @@ var targets = []target{
 	{"internal/server/dsmanager.go", "DsManager", "CreateDataset", []string{"storeValue", "storeEntity"}},
 	{"internal/server/dsmanager.go", "DsManager", "UpdateDataset", []string{"moveValue", "storeEntity"}},
 	{"internal/server/dsmanager.go", "DsManager", "DeleteDataset", []string{"deleteValue", "StoreObject", "deleteValueAndStoreObject", "storeEntity"}},
+	// compaction: every flush is one badger transaction (C12: kills between flushes)
+	{"internal/service/dataset/compact.go", "", "flushDeletes", []string{"Update"}},
 }
 
 var fset = token.NewFileSet()
@@ -157,15 +159,24 @@ func main() {
 		done := false
 		for _, d := range f.Decls {
 			fd, ok := d.(*ast.FuncDecl)
-			if !ok || fd.Name.Name != t.Func || fd.Recv == nil || fd.Body == nil {
+			if !ok || fd.Name.Name != t.Func || fd.Body == nil {
 				continue
 			}
-			rt := fd.Recv.List[0].Type
-			if s, ok := rt.(*ast.StarExpr); ok {
-				rt = s.X
-			}
-			if id, ok := rt.(*ast.Ident); !ok || id.Name != t.Recv {
-				continue
+			if t.Recv == "" {
+				if fd.Recv != nil {
+					continue
+				}
+			} else {
+				if fd.Recv == nil {
+					continue
+				}
+				rt := fd.Recv.List[0].Type
+				if s, ok := rt.(*ast.StarExpr); ok {
+					rt = s.X
+				}
+				if id, ok := rt.(*ast.Ident); !ok || id.Name != t.Recv {
+					continue
+				}
 			}
 			points[t.Func] = instrument(fd, t)
 			done = true
